@@ -79,6 +79,12 @@ type Job struct {
 	Pace int   `json:"pace,omitempty"`
 	PArg int   `json:"parg,omitempty"`
 	Ctx  int   `json:"ctx,omitempty"`
+	// error flavour of a failing job: EWrap 1/2 = the error wraps
+	// context.DeadlineExceeded / context.Canceled (no context of the case
+	// need be done); EShare = 1+index of an earlier failing job whose error
+	// instance this job returns as well.
+	EWrap  int `json:"ewrap,omitempty"`
+	EShare int `json:"eshare,omitempty"`
 }
 
 // Case is one scheduler execution.
@@ -121,6 +127,7 @@ func (c *Case) Hash() string {
 		COE     bool
 		Deps    [][]int
 		Beh     []int
+		EK      []int
 		Ctx     []int
 		CtxMode int
 		WaitCtx int
@@ -134,6 +141,7 @@ func (c *Case) Hash() string {
 	for _, j := range c.Jobs {
 		k.Deps = append(k.Deps, j.Deps)
 		k.Beh = append(k.Beh, j.Beh)
+		k.EK = append(k.EK, j.EWrap+10*j.EShare)
 		k.Ctx = append(k.Ctx, j.Ctx)
 	}
 	b, _ := json.Marshal(k)
@@ -325,6 +333,25 @@ func GenCase(t *rapid.T, p Profile) *Case {
 	case 3:
 		c.CtxMode = MTimer
 		c.TimerAt = rapid.IntRange(0, 60).Draw(t, "timerat")
+	}
+	// error flavours (after the behaviours are final)
+	var failing []int
+	for j := range c.Jobs {
+		if b := c.Jobs[j].Beh; b == BErr || b == BCancelErr {
+			switch uniform(t, "errflavour", 10) {
+			case 0:
+				c.Jobs[j].EWrap = 1
+			case 1:
+				c.Jobs[j].EWrap = 2
+			case 2, 3:
+				if len(failing) > 0 {
+					c.Jobs[j].EShare = 1 + failing[uniform(t, "eshare", len(failing))]
+				}
+			}
+			if c.Jobs[j].EShare == 0 {
+				failing = append(failing, j)
+			}
+		}
 	}
 	if prob(t, "waitother", p.PWaitOther) {
 		c.WaitCtx = []int{WBack, WBack, WOwnCancelled}[uniform(t, "waitctx", 3)]
@@ -571,6 +598,7 @@ func (c *Case) Labels() []string {
 		add("n:3+")
 	}
 	fanin, dup, fail, goexit, cancel, late := false, false, 0, false, false, false
+	ewrap, eshare := false, false
 	for _, j := range c.Jobs {
 		seen := map[int]bool{}
 		for _, d := range j.Deps {
@@ -591,9 +619,21 @@ func (c *Case) Labels() []string {
 		if Cancels(j.Beh) {
 			cancel = true
 		}
+		if (j.Beh == BErr || j.Beh == BCancelErr) && j.EWrap > 0 {
+			ewrap = true
+		}
+		if (j.Beh == BErr || j.Beh == BCancelErr) && j.EShare > 0 {
+			eshare = true
+		}
 		if j.Pace == PAwait && len(j.Deps) > 0 {
 			late = true
 		}
+	}
+	if ewrap {
+		add("err:wraps-ctx-error")
+	}
+	if eshare {
+		add("err:shared-instance")
 	}
 	if fanin {
 		add("fanin>=2")
